@@ -9,9 +9,11 @@
   Proofs: `Gama/Lemmas/Ls/Gso*.lean` (Gram–Schmidt invariant library of DESIGN §5.2).
 
   Refusal (C02): `gsoSolve` models the code since f703dbb (`AdjGSO::solve` throws
-  `BadRegularization` when `icgs.error() != 0`); `gsoSolveBefore` the code before it, on which
-  the refusal clause is FALSE (`C02_refusal_gso_before_fails`, finding F6, witness replayed on
-  the real code and kept as corpus/C02/F6-gso-nonresolving-1.txt).
+  `BadRegularization` when `icgs.error() != 0`).  Historical note (finding F6): before that
+  commit `ICGS::error()` was never read and the refusal clause was false — witness
+  A = [1 1 0; 0 0 1; 1 1 1], b = (1,2,3), S = {3} (kernel vector (1,−1,0) vanishes on S, gso
+  answered x = (1, 2⁻¹⁰³, 2)), kept as regression input corpus/C02/F6-gso-nonresolving-1.txt;
+  `Ex.pW_not_resolves` (Lemmas/Ls/GsoExample.lean) is the Lean side of that witness.
 -/
 import Gama.Lemmas.Ls.GsoRefuse
 import Gama.Lemmas.Ls.GsoExample
@@ -59,27 +61,17 @@ theorem C01_gso_unique (p : Problem K) (hU : Unambiguous p) (a : Answer K)
     unambiguously (tested norms 1, 0, 1), is answered with x = (0,1), v = (0,−1), defect 1 -/
 example : Unambiguous Ex.pR ∧ ∃ a, gsoSolve Ex.pR = .ok a ∧ a.x = #[0, 1] ∧ a.r = #[0, -1]
     ∧ a.defect = 1 := by
-  obtain ⟨a, _, h2, h3, h4, h5, _⟩ := Ex.pR_answers
+  obtain ⟨a, h2, h3, h4, h5, _⟩ := Ex.pR_answers
   exact ⟨Ex.pR_unambiguous, a, h2, h3, h4, h5⟩
 
 -- ------------------------------------------------------------------ refusal clause of C02
 
-/-- **F6** — the refusal clause failed on the model of the code before f703dbb: for
-    A = [1 1 0; 0 0 1; 1 1 1], b = (1,2,3), S = {3} the subset does not resolve the defect
-    (the kernel vector (1,−1,0) vanishes on S) and the solver returns an adjustment.
-    Replayed on the real code: corpus/C02/F6-gso-nonresolving-1.txt -/
-theorem C02_refusal_gso_before_fails :
-    ∃ p : Problem K, ¬ Resolves p.A p.S ∧ ∃ a, gsoSolveBefore p = .ok a :=
-  ⟨Ex.pW, Ex.pW_not_resolves, Ex.pW_answers⟩
-
 /-- `BadRegularization` is thrown exactly when the second orthogonalisation met a zero pivot
-    (`error_icgs2_defect ≠ 0`); never on a regular system; when the solver answers, the answer
-    is what the code before the repair returned -/
+    (`error_icgs2_defect ≠ 0`); never on a regular system -/
 theorem C02_refusal_gso_counter (p : Problem K) (hreg : regInRange p.n p.reg = true) :
     (gsoSolve p = .error .BadRegularization ↔ (runOf p).err ≠ 0)
-      ∧ ((runOf p).dep = [] → gsoSolve p ≠ .error .BadRegularization)
-      ∧ (∀ a, gsoSolve p = .ok a → gsoSolveBefore p = .ok a) := by
-  refine ⟨?_, ?_, ?_⟩
+      ∧ ((runOf p).dep = [] → gsoSolve p ≠ .error .BadRegularization) := by
+  refine ⟨?_, ?_⟩
   · by_cases he : (runOf p).err = 0 <;> simp [gsoSolve, gsoSolveWith, hreg, he]
   · intro hd
     have he : (runOf p).err = 0 := by
@@ -92,10 +84,6 @@ theorem C02_refusal_gso_counter (p : Problem K) (hreg : regInRange p.n p.reg = t
         · exact hd
       simp [this]
     simp [gsoSolve, gsoSolveWith, hreg, he]
-  · intro a h
-    by_cases he : (runOf p).err = 0
-    · simpa [gsoSolveBefore, gsoSolve, gsoSolveWith, hreg, he] using h
-    · simp [gsoSolve, gsoSolveWith, hreg, he] at h
 
 /-- **refusal clause of C02**: the solver throws `BadRegularization` exactly when the
     regularisation subset does not resolve the defect (in particular "if the input cannot be
@@ -117,7 +105,14 @@ theorem C02_gso_answers_only_resolving (p : Problem K) (hU : Unambiguous p)
 /-- non-vacuity: `Ex.pR` (S = {1} resolves its defect) is answered, not refused -/
 example : regInRange Ex.pR.n Ex.pR.reg = true ∧ ∃ a, gsoSolve Ex.pR = .ok a ∧ a.x = #[0, 1] := by
   refine ⟨by decide, ?_⟩
-  obtain ⟨a, _, h2, h3, _⟩ := Ex.pR_answers
+  obtain ⟨a, h2, h3, _⟩ := Ex.pR_answers
   exact ⟨a, h2, h3⟩
+
+/-- non-vacuity of the refusing side: over ℝ, A = [1 1 0; 0 0 1], S = {3} runs unambiguously
+    (tested norms 1, 0, 1, 0), is refused, and indeed S does not resolve its defect -/
+example : Unambiguous Ex.pT ∧ regInRange Ex.pT.n Ex.pT.reg = true
+    ∧ gsoSolve Ex.pT = .error .BadRegularization ∧ ¬ Resolves Ex.pT.A Ex.pT.S :=
+  ⟨Ex.pT_unambiguous, by decide, Ex.pT_refused,
+   (C02_refusal_gso Ex.pT Ex.pT_unambiguous (by decide)).1 Ex.pT_refused⟩
 
 end Gama.Props.C01
